@@ -59,7 +59,10 @@ V_FULL = [
 V_QUICK = ["0", "-1", "256", "vimax", "vimin", "vni", "1.5", "vinf", "vnan", "vnd", '""', '"a"', '"12"', "vns", "vnul",
            'raw("a")', 'raw("12")', "vnb", "vb", "true", "vnt", "vc", "vnc", "vr", "vnr", "tup()", "vtab", "vtabs", "vtab2", "vtabr", "vntab", "vetab",
            "null", "vu", "fnull()", "int()", "num()", "str()", "raw()", "bool()", "tab()", "2", "vs", "uq", "us", "ut", "ur",
-           "f1(ii)", "f1(1.5)", 'f1("a")', "fa", "phi", "pi"]
+           "f1(ii)", "f1(1.5)", 'f1("a")', 'f1(raw("a"))', "fa", "phi", "pi"]
+REGEXES = ['"a.c"', '"a(c"', '"a)c"', '"[0-9"', '"a{2"', '"a{2,1}"', '"*a"', '"+"', '"?"', '"a**"', '"\\\\"', '"(?"', '"[[:nosuch:]]"', '"[z-a]"', '"a|"', '"()"', '"\\\\1"',
+           '"(a"', '"a]"', '"{"', '"a{99999999999}"', '"((((((((((a))))))))))"', '"[a-"', '"(?=a)"', '"\\\\x"', '".*"', '""']
+V_OPAQUE = ["f1(ii)", "f1(1.5)", 'f1("a")', 'f1(raw("a"))', "f1(vtab)", "f1(null)"]
 V_SMALL = ["0", "-1", "vimax", "vimin", "vni", "1.5", "vnan", "vnd", '""', '"a"', "vns", "vnul", 'raw("a")', "vnb", "vnt", "vr", "vtab", "vntab",
            "null", "vu", "2", "vs", "uq", "us"]
 V_SIZE = ["null", "int()", "vni", "-1", "0", "1", "2", "65536", "vi", "1.5", '"a"', "vnd"]   # capped: allocation exhaustion is out of scope
@@ -107,6 +110,13 @@ def vocab_exprs(tier):
         for a in V2:
             for c in V2:
                 yield ("%s(%s, %s)" % (b, a, c), "b2:" + b)
+    if tier != "thorough":
+        # an operand whose type is only known at run time, on either side of every two-argument built-in
+        for b in B1[:6] + B2:
+            for a in V_OPAQUE:
+                for c in V2:
+                    yield ("%s(%s, %s)" % (b, a, c), "b2:" + b)
+                    yield ("%s(%s, %s)" % (b, c, a), "b2:" + b)
     for b, si in B2_SIZE.items():
         for a in (V_SIZE if si == 0 else V2):
             for c in (V_SIZE if si == 1 else V2):
@@ -126,6 +136,12 @@ def vocab_exprs(tier):
         for a in V:
             for c in V:
                 yield ("%s %s %s" % (a, o, c), "op:" + o)
+    # patterns of `matches`: valid and malformed regular expressions, as constant, variable content and opaque value
+    for pat in REGEXES:
+        for subj in ('"abc"', "vs", "vns", 'f1("a")'):
+            yield ("%s matches %s" % (subj, pat), "op:matches-pattern")
+            yield ("%s matches f1(%s)" % (subj, pat), "op:matches-pattern")
+            yield ("%s matches (\"\" + %s)" % (subj, pat), "op:matches-pattern")
     for o in UNOPS:
         for a in V:
             yield ("%s %s" % (o, a), "unop:" + o)
@@ -319,15 +335,15 @@ SEEDS = [
     'x:integer; y:string; z = null; print isnull(x) typeof(y) typeof(z);',
     '$v = 1; $v = 2; print $v;',
     'a = 0x1f, b = 1.5e3, c = .5, print a b c;',
-    'print (1 + 2) * -3 ** 2 % 5, print not true or false and null;',
-    'print 1 << 2 | 3 & 4 ^ 5 >> 1, print ~1;',
-    'print "a" == "b", print 1 <= 2.5, print "abc" matches "a.c";',
+    'print (1 + 2) * -3 ** 2 % 5; print not true or false and null;',
+    'print 1 << 2 | 3 & 4 ^ 5 >> 1; print ~1;',
+    'print "a" == "b"; print 1 <= 2.5; print "abc" matches "a.c";',
     'print upper("a") lower("B") trim(" x ") substr("hello", 1, 2) strpos("hello", "l") replace("aXa", "X", "y");',
     'print hex(255, 4) chr(65) hash("abc", 7) b64enc("hi") str(b64dec("aGk=")) int("12") num("1.5") isnum("x");',
     't = tokenize("a,b,,c", ",", true); forall e in t loop put e " "; end loop; print "";',
     'c = 2 + 3 * ii; print imag(c) iphase(c) iconj(c) c * c;',
     'print max(1, 2) min(1.5, 2) floor(1.5) ceil(1.5) round(1.555, 2) abs(-1) sign(-2) pow(2, 3) mod(7, 3) sqrt(4.0) clamp(5, 1, 3);',
-    'do nop; trace false; /* comment */ print "x"; // tail\n# line\nprint "y";',
+    'nop; do 1 + 1; trace false; /* comment */ print "x"; // tail\n# line\nprint "y";',
     'function h() return table is begin return tab(2, "z"); end; print h().at(1) h().count();',
     'function k(t) return tuple is begin return tup(t.count(), "n"); end; print k(tab(3, 0))@1;',
     'a = tab(2, tab(2, 0)); a.at(0).put(1, 5); forall r in a loop forall e in r loop put e; end loop; end loop; print "";',
